@@ -108,6 +108,66 @@ def check_word(ctx, L, tname, v, masks=None):
         ctx.problem("C17:overlay", f"{tname}({v:#x}): bit positions covered {cover} times", payload)
 
 
+def check_in_context(ctx, L, tname, v, other_types):
+    """The same word printed inside one stream with other events: directly behind a byte buffer, and next to a word of
+    another bit-field type (and a response code) holding the same bytes.  Each word must still get exactly its own rows."""
+    from tpmstream.common.event import MarshalEvent
+    from tpmstream.common.path import Path, PathNode
+    from tpmstream.io.pretty import Pretty
+
+    T = O.lib_type(tname)
+    BYTE = O.lib_type("BYTE")
+    bits = 8 * L.width(tname)
+    root = Path(PathNode(""))
+    events = [
+        MarshalEvent(root / PathNode("nonce"), list[BYTE], ...),
+        MarshalEvent(root / PathNode("nonce", 0), BYTE, BYTE(0xAB)),
+        MarshalEvent(root / PathNode("nonce", 1), BYTE, BYTE(0xCD)),
+    ]
+    words = []
+    same_width = [t for t in other_types if L.width(t) == L.width(tname) and t != tname]
+    order = [same_width[v % len(same_width)]] if same_width else []
+    if bits == 32:
+        order.append("TPM_RC")
+    # the word under test comes last, so rows cached for an earlier word with the same bytes would be reused for it
+    for k, t in enumerate(order + [tname]):
+        U = O.lib_type(t)
+        x = U(v)
+        events.append(MarshalEvent(root / PathNode(f"word{k}"), U, x))
+        words.append((f"word{k}", t, x))
+    payload = {"type": tname, "value": v, "context": [w[1] for w in words]}
+    rows = ctx.guard(lambda: list(Pretty.unmarshal(events)), "C17:pretty-context", payload)
+    if rows is None:
+        return
+    parsed = [parse_row(r) for r in rows]
+    if any(p is None for p in parsed):
+        ctx.problem("C17:rows-unparsable", f"{tname}({v:#x}) in context: {rows!r}", payload)
+        return
+    ctx.case((tname, v, "context"), True, sample={"type": tname, "value": hex(v), "printed_with": [w[1] for w in words]} if v in (1, 0x80) else None)
+    binary = format(v, f"0{bits}b")
+    i = 1  # row 0 is the buffer
+    for name, t, x in words:
+        if i >= len(parsed) or parsed[i].name != name:
+            ctx.problem("C17:context:word-row", f"{tname}({v:#x}) in context {payload['context']}: row for {name} ({t}) missing, rows {[p.name for p in parsed]}", payload)
+            return
+        i += 1
+        expected = [a._name for a in x.attributes()]
+        masks = {a._name: int(a._value) for a in x.attributes()}
+        got = []
+        while i < len(parsed) and parsed[i].type == "" and parsed[i].depth == 2:
+            got.append(parsed[i])
+            i += 1
+        if sorted(r.name for r in got) != sorted(expected):
+            ctx.problem("C17:context:rows", f"{t}({v:#x}) printed {'behind a byte buffer' if name == 'word0' else 'after ' + str(payload['context'])}: bit rows {[r.name for r in got]}, its fields are {expected}", payload)
+            return
+        for r in got:
+            m = masks[r.name]
+            want = "".join(binary[j] if (m >> (bits - 1 - j)) & 1 else "." for j in range(bits))
+            if r.value.split(" ")[0] != want:
+                ctx.problem("C17:context:row-bits", f"{t}({v:#x}).{r.name} printed in context shows {r.value.split(' ')[0]!r}, expected {want!r}", payload)
+                return
+
+
 def words_32(masks, bits):
     full = (1 << bits) - 1
     vals = {0, full}
@@ -142,6 +202,7 @@ def run_shard(ctx):
         def loop(t=t, vals=vals, masks=masks):
             for v in vals:
                 check_word(ctx, L, t, v, masks)
+                check_in_context(ctx, L, t, v, types)
 
         ctx.run_plain(loop, f"words:{t}")
         if bits > 8:
